@@ -39,6 +39,8 @@ type Engine struct {
 	ghosts    map[string]GhostDecl
 	assumedUsed map[string]bool
 	allFns      map[*ssa.Function]bool
+	knownNames  map[string]bool // obligations recorded as known findings for curProp
+	curProp     string // property being checked (clause-level @Cxx filters)
 	frozenIDs   map[string]bool // printed literal of frozen global object ids
 	pureMemo    map[*ssa.Function]int
 	allocTypes  map[string]types.Type
